@@ -28,7 +28,7 @@ func tgt1(context.Context, rA) {}
 func TestC03Reentrancy(t *testing.T) {
 	run := vk.New("C03", "reentrancy")
 	defer run.Finish()
-	sites := []string{"handler", "ctxhandler", "asynchandler", "filter", "before", "beforectx", "after", "afterctx", "replayhandler", "asyncduringshutdown"}
+	sites := []string{"handler", "ctxhandler", "asynchandler", "filter", "before", "beforectx", "after", "afterctx", "replayhandler", "asyncduringshutdown", "panichandler"}
 	calls := []string{"pub-same", "pub-other", "subscribe", "subscribectx", "unsubscribe", "clear", "clearall", "has", "count"}
 	optss := []string{"-", "once", "sequential", "async+sequential"}
 	idx := 0
@@ -124,6 +124,10 @@ func scenario(site, call, opt string) string {
 	case "afterctx":
 		opts = append(opts, ebu.WithAfterPublishContext(func(context.Context, reflect.Type, any) { reenter() }))
 	}
+	if site == "panichandler" {
+		// the bus's panic handler, called for a handler that panicked, calls back into the bus
+		opts = append(opts, ebu.WithPanicHandler(func(any, reflect.Type, any) { reenter() }))
+	}
 	if site == "replayhandler" || site == "asyncduringshutdown" {
 		opts = append(opts, ebu.WithStore(ebu.NewMemoryStore()))
 	}
@@ -152,6 +156,8 @@ func scenario(site, call, opt string) string {
 		ebu.Subscribe(bus, func(rA) { reenter() }, append(so, ebu.Async())...)
 	case "filter":
 		ebu.Subscribe(bus, func(rA) {}, append(so, ebu.WithFilter(func(rA) bool { reenter(); return true }))...)
+	case "panichandler":
+		ebu.Subscribe(bus, func(rA) { panic("c03: handler panics") }, so...)
 	case "asyncduringshutdown":
 		// an async handler on a persistent bus that is still in flight when Shutdown is called and
 		// calls back into the bus while Shutdown waits for it
@@ -197,4 +203,78 @@ func scenario(site, call, opt string) string {
 		}
 	}
 	return ""
+}
+
+// TestC03Burst: more asynchronous invocations in flight at once than any plausible internal capacity
+// (thousands), every one of which calls back into the bus before it finishes — plain async handlers
+// parked on a gate, and the backlog of an Async+Sequential handler. Nothing may deadlock; Wait returns.
+func TestC03Burst(t *testing.T) {
+	run := vk.New("C03", "burst")
+	defer run.Finish()
+	idx := 0
+	for _, n := range []int{300, 1100, 4200, 9000} {
+		for _, shape := range []string{"async-gated", "async-sequential-backlog"} {
+			idx++
+			if !run.Mine(idx) {
+				continue
+			}
+			if shape == "async-sequential-backlog" && n > 5000 && !run.Thorough() {
+				continue // (the backlog's wake-ups are quadratic; the largest one is left to the thorough tier)
+			}
+			sig := fmt.Sprintf("%s|n%d", shape, n)
+			done := make(chan string, 1)
+			go func() {
+				bus := ebu.New()
+				var follow atomic.Int32
+				ebu.Subscribe(bus, func(rB) { follow.Add(1) })
+				gate := make(chan struct{})
+				var so []ebu.SubscribeOption
+				if shape == "async-sequential-backlog" {
+					so = append(so, ebu.Sequential())
+				}
+				ebu.Subscribe(bus, func(e rA) {
+					<-gate
+					ebu.Publish(bus, rB{N: e.N}) // a follow-up from inside the in-flight invocation
+				}, append(so, ebu.Async())...)
+				for i := 0; i < n; i++ {
+					ebu.Publish(bus, rA{N: i})
+				}
+				close(gate)
+				bus.Wait()
+				if int(follow.Load()) != n {
+					done <- fmt.Sprintf("%d of %d follow-up events were delivered", follow.Load(), n)
+					return
+				}
+				done <- ""
+			}()
+			finished := false
+			for waited := 0; !finished; waited++ {
+				select {
+				case msg := <-done:
+					if msg != "" {
+						run.Violation("burst:wrong-result:"+sig, msg, map[string]any{"scenario": sig})
+					}
+					run.Case(sig, true)
+					run.Max("max_async_invocations_in_flight", int64(n))
+					finished = true
+				case <-time.After(20 * time.Second):
+					buf := make([]byte, 8<<20)
+					d1 := string(buf[:runtime.Stack(buf, true)])
+					time.Sleep(time.Second)
+					d2 := string(buf[:runtime.Stack(buf, true)])
+					if watchdog.BlockedUnderEbu(d1) && watchdog.BlockedUnderEbu(d2) {
+						run.Violation("burst:deadlock:"+sig, fmt.Sprintf("%d asynchronous invocations in flight, each publishing a follow-up event: publishers / handlers / Wait are parked below ebu frames and nothing moves", n), map[string]any{"scenario": sig, "dump": d2[:min(len(d2), 20000)]})
+						run.Finish()
+						t.Fatalf("hang in %s", sig)
+					}
+					run.Count("watchdog_slow_windows", 1)
+					if waited >= 30 {
+						run.Inconclusive("burst scenario did not finish within 10 minutes without a lock cycle in the dumps: " + sig)
+						finished = true
+					}
+				}
+			}
+		}
+	}
+	run.Exhaustive(true)
 }
